@@ -607,4 +607,37 @@ theorem emitGroups_spec : ∀ (gs : List (List Field)) (s : CurState) (o : List 
     simp [List.append_assoc, Nat.add_assoc]
 
 
+/-! ### `>bitstr` flattening -/
+
+theorem ofList_append (a b : List Cell) :
+    CellList.ofList (a ++ b) = match a with | [] => CellList.ofList b | x :: t => .cons x (CellList.ofList (t ++ b)) := by
+  cases a <;> simp [CellList.ofList]
+
+theorem concatVec_append : ∀ (a b : List Cell) (x y : List Bool),
+    concatVec (CellList.ofList a) = .ok x → concatVec (CellList.ofList b) = .ok y →
+    concatVec (CellList.ofList (a ++ b)) = .ok (x ++ y) := by
+  intro a
+  induction a with
+  | nil => intro b x y ha hb; simp [CellList.ofList, concatVec] at ha; subst ha; simpa using hb
+  | cons c a ih =>
+    intro b x y ha hb
+    simp only [List.cons_append, CellList.ofList, concatVec] at ha ⊢
+    split at ha
+    · rename_i e he
+      split at ha
+      · rename_i r hr
+        simp at ha; subst ha
+        rw [ih b r y hr hb]
+        simp [List.append_assoc]
+      · rename_i e2 hne
+        cases hcv : concatVec (CellList.ofList a) with
+        | ok r => exact absurd hcv (hne r)
+        | err e => rw [hcv] at ha; simp at ha
+        | panic p => rw [hcv] at ha; simp at ha
+    · rename_i e hne
+      cases hce : concatElem c with
+      | ok r => exact absurd hce (hne r)
+      | err e => rw [hce] at ha; simp at ha
+      | panic p => rw [hce] at ha; simp at ha
+
 end Xeh.Cur
